@@ -222,9 +222,14 @@ func (v *Verifier) execBlock(fr *Frame, st *State, stmts []ast.Stmt) []*State {
 					if o.ctl == CtlNormal {
 						save := fr.scopeAt
 						fr.scopeAt = s.End()
+						note := ""
+						if len(cut.Havoc) > 0 {
+							v.havocModifies(fr, o, o.fork(), &Contract{Modifies: cut.Havoc}, s.Pos())
+							note = " (after havoc of " + cut.HavocText + ")"
+						}
 						o.assume(v.asBool(v.evalSpec(fr, o, cut.Clause.Expr), s.Pos()))
 						fr.scopeAt = save
-						v.assumed[fmt.Sprintf("%s: after %q assume %s", v.curFn, cut.Anchor, cut.Clause.Text)] = true
+						v.assumed[fmt.Sprintf("%s: after %q assume %s%s", v.curFn, cut.Anchor, cut.Clause.Text, note)] = true
 					}
 				}
 			}
@@ -351,6 +356,9 @@ func (v *Verifier) execStmt(fr *Frame, st *State, s ast.Stmt) []*State {
 		}
 		st.ctl = CtlReturn
 		st.results = res
+		if fr.depth == 0 {
+			st.retPos = x.Pos()
+		}
 		return []*State{st}
 	case *ast.BranchStmt:
 		switch x.Tok {
